@@ -197,6 +197,14 @@ func S2() []*Grammar {
 		// reduce/reduce/reduce and shift+reduce+reduce
 		"S: A | B | C ; A: a ; B: a ; C: a",
 		"S: A b | B b | a b ; A: a ; B: a",
+		// a non-terminal directly followed by a nullable (possibly left-recursive) non-terminal, with more to the right
+		"S: H L ; H: a ; L: L x | empty",
+		"S: H L b ; H: a ; L: empty | L x",
+		"S: T O eq n | n ; T: n ; O: empty | lb n rb",
+		"S: T O n semi ; T: i | c ; O: empty | star",
+		"S: A B C d ; A: a ; B: empty | b ; C: empty | c",
+		"S: L ; L: L I | empty ; I: a | b L c",
+		"S: D S | empty ; D: T O n ; T: i ; O: empty | star O",
 		// bodies of length 3+
 		"S: a S b S | empty",
 		"S: a b c | a b d | A c ; A: a b",
